@@ -20,7 +20,8 @@ Theorem C05_encode_envelope : forall (jprint : json -> string) (sign : string ->
 Proof. exact encode_envelope. Qed.
 Print Assumptions C05_encode_envelope.
 
-(* for every typed kind: if Encode succeeds on claims v, the general decoder accepts the token,
+(* [now] is the Unix second Encode reads from the clock (an int64 that is not negative).
+   for every typed kind: if Encode succeeds on claims v, the general decoder accepts the token,
    verifies it over header.payload, returns claims of the same kind and the same issuer, and
    the claims it loads are (canonically) the stamped claims *)
 Theorem C03_encode_decode : forall (jparse : string -> option json) (jprint : json -> string)
@@ -28,7 +29,7 @@ Theorem C03_encode_decode : forall (jparse : string -> option json) (jprint : js
     (role_of : string -> role) (k : ckind) (issuer : string) (now : Z) (v v' : val) (tok : string),
   (forall j, jparse (jprint j) = Some j) ->
   (forall text, verify issuer text (sign text) = true) ->
-  k <> KGeneric ->
+  k <> KGeneric -> 0 <= now <= 9223372036854775807 ->
   has_type (schema_of k) v = true ->
   encode H jprint sign k true issuer now v = Some (v', tok) ->
   scopes_ok (schema_of k) v' = true -> k1_guard k v' = true ->
@@ -41,5 +42,8 @@ Theorem C03_encode_decode : forall (jparse : string -> option json) (jprint : js
     (exists c1, nth_error (split dot tok) 1 = Some c1 /\
                 exists data, b64dec c1 = Some data /\ p_loaded jparse data k 2 = Some d) /\
     canon d = canon v'.
-Proof. exact encode_decode. Qed.
+Proof.
+  intros jparse jprint H sign verify role_of k issuer now v v' tok Hjp Hver.
+  exact (encode_decode jparse jprint Hjp H sign verify role_of k issuer now v v' tok Hver).
+Qed.
 Print Assumptions C03_encode_decode.
